@@ -94,8 +94,12 @@ def _noncontig(a):
 
 
 def _same(r1, r2):
+    if isinstance(r1, dict):
+        return isinstance(r2, dict) and list(r1.keys()) == list(r2.keys()) and all(_same(r1[k], r2[k]) for k in r1)
     if isinstance(r1, (tuple, list)):
         return isinstance(r2, (tuple, list)) and len(r1) == len(r2) and all(_same(a, b) for a, b in zip(r1, r2))
+    if isinstance(r1, (str, int, bool, complex, float)) or r1 is None:
+        return type(r1) is type(r2) and r1 == r2
     return np.array_equal(np.asarray(r1), np.asarray(r2))
 
 
@@ -110,16 +114,70 @@ def _overwrite(r):
             np.bitwise_xor(r, 1, out=r)
         elif r.dtype.kind == 'b':
             np.logical_not(r, out=r)
-        else:
+        elif r.dtype.kind in 'fc':
             r += 1
+        else:
+            return False      # strings / objects: nothing numeric to overwrite
         return True
     return False
 
 
 def _deepcopy(r):
+    if isinstance(r, dict):
+        return {k: _deepcopy(v) for k, v in r.items()}
     if isinstance(r, (tuple, list)):
         return type(r)(_deepcopy(x) for x in r)
     return r.copy() if isinstance(r, np.ndarray) else r
+
+
+def _arrays_in(r):
+    if isinstance(r, dict):
+        for v in r.values():
+            yield from _arrays_in(v)
+    elif isinstance(r, (tuple, list)):
+        for v in r:
+            yield from _arrays_in(v)
+    elif isinstance(r, np.ndarray):
+        yield r
+
+
+def buffer_reuse(ctx, fn, call, A, B, holds=None, share_ok=False, mutate=True):
+    """hardening class "buffer reuse across calls": `call(X)` builds FRESH arguments from the immutable description X and returns
+    what the function hands out.  History [f(A), f(B)] with B != A of the same size (so that any size-keyed cache / workspace is
+    shared): the first result must still be what it was, must not share memory with the second, must still satisfy the property
+    for A (`holds(A, r1)`); then f(A) -> overwrite the result in place -> f(B), f(A): both as before.
+    Failure key `<fn>:result-overwritten-by-next-call`, the history is the failing input."""
+    key = f'{fn}:result-overwritten-by-next-call'
+    rp = dict(op='buffer-reuse', fn=fn, history=[f'{fn}({A})', f'{fn}({B})'])
+    def body():
+        r1 = call(A); c1 = _deepcopy(r1)
+        r2 = call(B); c2 = _deepcopy(r2)
+        if not _same(r1, c1):
+            return f'the result of {fn}({A}) was changed by the later call {fn}({B})'
+        if not share_ok:
+            a1, a2 = list(_arrays_in(r1)), list(_arrays_in(r2))
+            if any(x is y or np.shares_memory(x, y) for x in a1 for y in a2) or (r1 is r2 and isinstance(r1, (list, dict))):
+                return f'the results of {fn}({A}) and {fn}({B}) share memory'
+        if holds is not None and not holds(A, r1):
+            return f'after {fn}({B}) the result of {fn}({A}) no longer satisfies the property'
+        if not mutate:        # the function is known to hand out shared module-level constants (recorded observation): not vandalised
+            return None
+        r1b = call(A)
+        _overwrite(r1b)
+        r2b = call(B)
+        if not _same(r2b, c2):
+            return f'{fn}({A}) -> result overwritten in place by its owner -> {fn}({B}) returns a different value than before'
+        r3 = call(A)
+        if not _same(r3, c1):
+            return f'{fn}({A}) -> result overwritten in place -> {fn}({B}) -> {fn}({A}) returns a different value than the first time'
+        return None
+    out = guarded(body)
+    if out is None:
+        ctx.probe_ok(('buffer-reuse', fn, str(A)[:40], str(B)[:40]))
+    elif out == 'rejected' or out.startswith('raised:'):
+        ctx.fail('implementation-raised', f'{fn}: history [{fn}({A}), {fn}({B})]: {out}', rp)
+    else:
+        ctx.fail(key, out, rp)
 
 
 def from_with_history(sp, t):
@@ -744,8 +802,45 @@ def closure_probe(ctx, sp, n, hs):
             ctx.probe_ok()
 
 
+def buffer_reuse_block(ctx, only=None):
+    """deterministic block (both tiers, no rng): every array-returning function of spf2 / rand_SpF2 with two different inputs of the
+    same size (see `buffer_reuse`)"""
+    import numqi
+    sp = numqi.group.spf2
+    def run(fn, call, A, B, **kw):
+        if only is None or only == fn:
+            buffer_reuse(ctx, fn, call, A, B, **kw)
+    tuples = {1: [(0, 0), (2, 1)], 2: [(0, 0, 0, 0), (2, 1, 14, 7)], 3: [(1, 0, 3, 2, 5, 7), (2, 1, 14, 7, 62, 31)]}
+    def img(t):   # harness-side copy of the image, recomputed from scratch each time
+        return np.array(sp.from_int_tuple(tuple(t))).copy()
+    for n, (ta, tb) in tuples.items():
+        run('from_int_tuple', lambda t: sp.from_int_tuple(tuple(t)), ta, tb,
+            holds=lambda t, M: is_sp(M) and tuple(int(x) for x in sp.to_int_tuple(np.array(M).copy())) == tuple(t))
+        run('to_int_tuple', lambda t: sp.to_int_tuple(img(t)), ta, tb, holds=lambda t, r: tuple(int(x) for x in r) == tuple(t))
+        run('inverse', lambda t: sp.inverse(img(t)), ta, tb,
+            holds=lambda t, R: np.array_equal((img(t).astype(np.int64) @ np.asarray(R).astype(np.int64)) % 2, np.eye(2 * n, dtype=np.int64)))
+        run('rand_SpF2', lambda t: numqi.random.rand_SpF2(n, seed=ScriptedRandom(list(t))), ta, tb, holds=lambda t, M: is_sp(M))
+        run('rand_SpF2[int_tuple-matrix]', lambda t: numqi.random.rand_SpF2(n, return_kind='int_tuple-matrix', seed=ScriptedRandom(list(t))), ta, tb)
+        h = '1' + '0' * (2 * n - 2) + '1'
+        # transvection on a matrix / a stack of two matrices / a vector, same transvection list
+        run('transvection[matrix]', lambda t: sp.transvection(img(t), varr(h)), ta, tb, holds=lambda t, R: is_sp(R))
+        run('transvection[stack]', lambda t: sp.transvection(np.stack([img(t), img(t)[::-1].copy()]), varr(h), varr(h[::-1])), ta, tb)
+        run('get_inner_product[matrix]', lambda t: sp.get_inner_product(img(t), varr(h)), ta, tb)
+    for m, (xa, xb, ha, hb) in {2: ('10', '11', '01', '11'), 4: ('1010', '0111', '0011', '1001'), 6: ('100110', '011101', '110000', '000111')}.items():
+        run('transvection[vector]', lambda x: sp.transvection(varr(x.split('|')[0]), varr(x.split('|')[1])), f'{xa}|{ha}', f'{xb}|{hb}')
+        run('find_transvection', lambda x: sp.find_transvection(varr(x.split('|')[0]), varr(x.split('|')[1])), f'{xa}|{ha}', f'{xb}|{hb}',
+            holds=lambda x, r: np.array_equal(sp.transvection(varr(x.split('|')[0]), r[0], r[1]), varr(x.split('|')[1])))
+    for n, ia, ib in ((3, 5, 6), (8, 5, 200), (9, 300, 77), (16, 40000, 12345), (64, 2 ** 63 + 5, 12345678901234567)):
+        run('int_to_bitarray', lambda i: sp.int_to_bitarray(int(i.split('/')[0]), int(i.split('/')[1])), f'{ia}/{n}', f'{ib}/{n}',
+            holds=lambda i, r: sp.bitarray_to_int(np.array(r).copy()) == int(i.split('/')[0]))
+    for n in (1, 2, 3):
+        run('get_number', lambda k: sp.get_number(n, k), 'base', 'coset')   # immutable tuples: only "unchanged" is meaningful
+
+
 def _probe_body(ctx):
     """direct evaluation of the property statement on the real code, independent of the model"""
+    # 0. buffer reuse across calls (deterministic block)
+    buffer_reuse_block(ctx)
     import numqi
     sp = numqi.group.spf2
     rng = ctx.rng
@@ -976,6 +1071,9 @@ def replay(ctx, payload):
             closure_probe(ctx, sp, r['n'], [r['h']])
         except Exception as e:  # noqa: BLE001
             ctx.fail('implementation-raised', f'{type(e).__name__}: {e}', r)
+        hints = None
+    elif op == 'buffer-reuse':
+        buffer_reuse_block(ctx, only=r.get('fn'))
         hints = None
     elif op in ('side-effect', 'dtype') and 'line' in r:
         out = canon(safe_impl_op(r['line']))
